@@ -107,12 +107,11 @@ func (r *ChunkReader) ReadChunk(size uint16) (*KV, error) {
 		}
 		r.r = nextReader
 
-		// Limit the max bytes read for the key to size minus 7 (min overhead,
-		// see note below)
-		keyReader := io.LimitReader(r.r, int64(size-7))
-
-		// Read key as raw CBOR
-		if err := cbor.NewDecoder(keyReader).Decode(&r.rkey); err != nil {
+		// Read key as raw CBOR. The key is read in full regardless of size: if
+		// it does not fit, ErrSizeTooSmall is returned below and the reader
+		// and key are kept for the next call. (Limiting the read to the
+		// remaining size would truncate the key and lose the message.)
+		if err := cbor.NewDecoder(r.r).Decode(&r.rkey); err != nil {
 			_ = r.r.CloseWithError(err)
 			r.r = nil
 
